@@ -119,6 +119,32 @@ def run(ck):
             _validate(ck, sw, "cover_frag_" + lvl, beh,
                       "transition cover 2x3, fragmented messages with a control frame in between, %s APIs" % lvl, "split=frame", ck.seed)
 
+    def oversized():
+        """Scripted (the session model has no such peer event): a conforming message that fits the size limit but not
+        the buffer of the message-level reads. They refuse it and start the closing handshake with 1001 - unless a
+        closing handshake is under way already: one Close frame per endpoint, whoever started."""
+        def S(op, api="", k="", t=0, c=0):
+            return {"op": op, "api": api, "k": k, "t": t, "c": c, "n": 0, "then": 0, "glue": 0, "st": "", "pend": 0, "nw": 0, "err": ""}
+        hs = []
+        for rd, wr, cl in (("NextMessage", "Write", "Close"), ("AsyncNextMessage", "AsyncWrite", "AsyncClose")):
+            fr = "NextFrame" if rd == "NextMessage" else "AsyncNextFrame"
+            hs += [
+                [S("peer", k="big", t=1), S("call", rd), S("call", wr, t=2), S("peer", k="closeValid", t=3), S("call", rd)],
+                [S("call", cl), S("peer", k="big", t=1), S("call", rd), S("peer", k="closeValid", t=2), S("call", rd)],
+                [S("call", cl), S("peer", k="data", t=1), S("peer", k="big", t=2), S("call", rd), S("call", rd),
+                 S("peer", k="closeValid", t=3), S("call", rd)],
+                [S("peer", k="big", t=1), S("call", fr), S("call", wr, t=2), S("peer", k="big", t=3), S("call", rd), S("call", wr, t=4)],
+                [S("peer", k="ping", t=1), S("peer", k="big", t=2), S("call", rd), S("call", rd), S("peer", k="closeValid", t=3), S("call", rd)],
+                [S("peer", k="closeValid", t=1), S("peer", k="big", t=2), S("call", rd), S("call", rd)],
+                [S("peer", k="big", t=1), S("peer", k="big", t=2), S("call", rd), S("call", rd), S("call", cl)],
+            ]
+        beh = os.path.join(ck.work, "oversized.jsonl")
+        with open(beh, "w") as f:
+            for h in hs:
+                f.write(json.dumps(h) + "\n")
+        for mode in ("split=frame", "split=all"):
+            _validate(ck, sw, "oversized_" + mode[6:], beh, "scripted: messages larger than the reader's buffer, " + mode, mode, ck.seed)
+
     def deferred(writers=False):
         # the asynchronous calls at callback granularity: completions of transport reads and writes are
         # steps of the schedule, so peer events and further calls land between the start of an
@@ -182,7 +208,7 @@ def run(ck):
 
     with ThreadPoolExecutor(max_workers=6) as ex:
         # quick: the cover run is the exhaustive run (3x3); thorough adds the exhaustive 5x4 run
-        futs = [ex.submit(cover), ex.submit(fragments), ex.submit(deferred), ex.submit(deferred, True), ex.submit(bugdemo)] + ([] if quick else [ex.submit(count)]) + \
+        futs = [ex.submit(cover), ex.submit(fragments), ex.submit(oversized), ex.submit(deferred), ex.submit(deferred, True), ex.submit(bugdemo)] + ([] if quick else [ex.submit(count)]) + \
                [ex.submit(sim, k) for k in range(2 if quick else 3)]
         for f in futs:
             f.result()
